@@ -127,6 +127,11 @@ struct HArray : public HashTable<Key_T, HAItem_T<Key_T, Value_T>> {
     }
 
     void operator+=(const HArray &src) {
+        if (this == &src) {
+            // Every key is already here with the same value; growing would also move the items being read.
+            return;
+        }
+
         const SizeT  n_size   = (Size() + src.Size());
         const HItem *src_item = src.First();
         const HItem *src_end  = src_item + src.Size();
